@@ -8,6 +8,7 @@ import (
 	"errors"
 	"fmt"
 	"sort"
+	"sync"
 )
 
 var errReadOnly = errors.New("Not implemented: Not supported operation in read only mode.")
@@ -30,9 +31,21 @@ func openDbCFs(opts *Options, name string, cfNames []string, cfOpts []*Options, 
 	return &DB{name: name, opts: opts, m: m, readOnly: mode != openReadWrite}, handles, nil
 }
 
-func (db *DB) write(ops []wbOp) error {
+// checkWriteOptions reproduces the one WriteOptions sanity check of rocksdb
+// that client test-suites like to (ab)use to provoke write errors.
+func checkWriteOptions(wo *WriteOptions) error {
+	if wo != nil && wo.sync && wo.disableWAL {
+		return errors.New("Invalid argument: Sync writes has to enable WAL.")
+	}
+	return nil
+}
+
+func (db *DB) write(wo *WriteOptions, ops []wbOp) error {
 	if db.readOnly {
 		return errReadOnly
+	}
+	if err := checkWriteOptions(wo); err != nil {
+		return err
 	}
 	return db.m.apply(ops)
 }
@@ -80,9 +93,9 @@ func (m *memDB) dropCF(id uint32) error {
 // write performs a non-transactional write on a TransactionDB. Like the real
 // thing it goes through the lock manager, i.e. it conflicts with keys locked
 // by open transactions (default_lock_timeout).
-func (db *TransactionDB) write(ops []wbOp) error {
-	t := beginTransaction(db.m, nil, true, db.transactionDBOpts.defaultLockTimeout, false)
-	defer t.Destroy()
+func (db *TransactionDB) write(wo *WriteOptions, ops []wbOp) error {
+	t := newTxnState(db.m, wo, true, db.transactionDBOpts.defaultLockTimeout, false)
+	defer t.release()
 	for _, op := range ops {
 		if !op.isData {
 			continue
@@ -175,37 +188,62 @@ type txnWrite struct {
 	deleted bool
 }
 
-func beginTransaction(m *memDB, old *Transaction, pessimistic bool, lockTimeoutMs int64, setSnapshot bool) *Transaction {
-	t := old
-	if t == nil {
-		t = &Transaction{}
-	} else {
-		t.release()
+// txnState is the real state of a Transaction; see the comment on Transaction.
+type txnState struct {
+	mu          sync.Mutex
+	m           *memDB
+	pessimistic bool
+	lockTimeout int64 // ms
+	ops         []wbOp
+	savePoints  []int
+	held        []string // lock keys owned (guarded by memDB.lockMu)
+	done        bool
+	name        string
+	snap        *memSnapshot
+	wo          *WriteOptions
+}
+
+var txnStates sync.Map // *Transaction -> *txnState
+
+func (transaction *Transaction) state() *txnState {
+	v, ok := txnStates.Load(transaction)
+	if !ok {
+		panic("grocksdb stub: use of a destroyed (or never begun) Transaction")
 	}
-	t.mu.Lock()
-	defer t.mu.Unlock()
-	t.m = m
-	t.pessimistic = pessimistic
-	t.lockTimeout = lockTimeoutMs
-	t.ops = nil
-	t.savePoints = nil
-	t.done = false
-	t.name = ""
-	t.snap = nil
+	return v.(*txnState)
+}
+
+func newTxnState(m *memDB, wo *WriteOptions, pessimistic bool, lockTimeoutMs int64, setSnapshot bool) *txnState {
+	t := &txnState{m: m, pessimistic: pessimistic, lockTimeout: lockTimeoutMs}
+	if wo != nil {
+		c := *wo // rocksdb copies the write options into the transaction
+		t.wo = &c
+	}
 	if setSnapshot {
 		t.snap = m.snapshot()
 	}
 	return t
 }
 
-func (t *Transaction) lock(cf uint32, key []byte) error {
+func beginTransaction(m *memDB, old *Transaction, wo *WriteOptions, pessimistic bool, lockTimeoutMs int64, setSnapshot bool) *Transaction {
+	t := old
+	if t == nil {
+		t = &Transaction{}
+	} else if v, ok := txnStates.Load(t); ok {
+		_ = v.(*txnState).rollback()
+	}
+	txnStates.Store(t, newTxnState(m, wo, pessimistic, lockTimeoutMs, setSnapshot))
+	return t
+}
+
+func (t *txnState) lock(cf uint32, key []byte) error {
 	if !t.pessimistic {
 		return nil
 	}
 	return t.m.lock(t, cf, key, t.lockTimeout)
 }
 
-func (t *Transaction) release() {
+func (t *txnState) release() {
 	if t.m != nil && t.pessimistic {
 		t.m.unlockAll(t)
 	}
@@ -214,7 +252,7 @@ func (t *Transaction) release() {
 // pending computes the transaction-local state of one key by replaying the
 // buffered operations (the committed value is consulted for merges).
 // Must be called with t.mu held.
-func (t *Transaction) pending(cf uint32, key []byte) (txnWrite, bool, error) {
+func (t *txnState) pending(cf uint32, key []byte) (txnWrite, bool, error) {
 	var (
 		cur   txnWrite
 		found bool
@@ -256,7 +294,7 @@ func (t *Transaction) pending(cf uint32, key []byte) (txnWrite, bool, error) {
 	return cur, found, nil
 }
 
-func (t *Transaction) get(ro *ReadOptions, cf uint32, key []byte) ([]byte, bool, error) {
+func (t *txnState) get(ro *ReadOptions, cf uint32, key []byte) ([]byte, bool, error) {
 	t.mu.Lock()
 	defer t.mu.Unlock()
 	w, found, err := t.pending(cf, key)
@@ -272,7 +310,7 @@ func (t *Transaction) get(ro *ReadOptions, cf uint32, key []byte) ([]byte, bool,
 	return t.m.get(ro, cf, key)
 }
 
-func (t *Transaction) write(op wbOp) error {
+func (t *txnState) write(op wbOp) error {
 	if t.done {
 		return errors.New("Invalid argument: Transaction has already been committed or rolled back")
 	}
@@ -298,7 +336,7 @@ func (t *Transaction) write(op wbOp) error {
 	return nil
 }
 
-func (t *Transaction) commit() error {
+func (t *txnState) commit() error {
 	t.mu.Lock()
 	if t.done {
 		t.mu.Unlock()
@@ -309,12 +347,15 @@ func (t *Transaction) commit() error {
 	t.savePoints = nil
 	t.done = true
 	t.mu.Unlock()
-	err := t.m.apply(ops)
+	err := checkWriteOptions(t.wo)
+	if err == nil {
+		err = t.m.apply(ops)
+	}
 	t.release()
 	return err
 }
 
-func (t *Transaction) rollback() error {
+func (t *txnState) rollback() error {
 	t.mu.Lock()
 	t.ops = nil
 	t.savePoints = nil
@@ -325,7 +366,7 @@ func (t *Transaction) rollback() error {
 
 // iterator returns a merged view of the database and the uncommitted writes of
 // the transaction.
-func (t *Transaction) iterator(ro *ReadOptions, cf uint32) *Iterator {
+func (t *txnState) iterator(ro *ReadOptions, cf uint32) *Iterator {
 	items, cmp := t.m.sortedPairs(ro, cf)
 	t.mu.Lock()
 	defer t.mu.Unlock()
